@@ -18,7 +18,7 @@ REPLAYS = os.path.join(BUILD, "replays")
 PY = "/venv/bin/python"
 NPROC = 16
 
-IMPL_ENV = dict(os.environ, PYTHONPATH=os.path.join(ROOT, "modules"), PYTHONHASHSEED="0",
+IMPL_ENV = dict({k: v for k, v in os.environ.items() if k != "PYTHONUNBUFFERED"}, PYTHONPATH=os.path.join(ROOT, "modules"), PYTHONHASHSEED="0",
                 PYTHONDONTWRITEBYTECODE="1", PYTHONWARNINGS="ignore")
 
 TRUSTED_BASE = [
